@@ -34,9 +34,22 @@ def tok(v):
 
 def fmt(template, *args, **kw):
     """str.format with tokens for symbolic ints"""
+    import string
+    sym = any(isinstance(x, SInt) for x in list(args) + list(kw.values()))
+    if sym:
+        # a symbolic number travels as an opaque token: only plain replacement fields ({} / {0} / {name}) render
+        # it faithfully; a format spec (width, base, precision ...) on it is not modelled
+        for _, field, spec, conv in string.Formatter().parse(template):
+            if field is not None and (spec or conv):
+                raise Unsupported(f"format spec {spec!r} applied in a template that renders a symbolic number")
     a = [tok(x) if isinstance(x, SInt) else x for x in args]
     k = {n: (tok(x) if isinstance(x, SInt) else x) for n, x in kw.items()}
-    return template.format(*a, **k)
+    try:
+        return template.format(*a, **k)
+    except (ValueError, TypeError, IndexError, KeyError) as e:
+        if sym:
+            raise Unsupported(f"str.format on a symbolic number: {e}")
+        raise RaiseSig(e)
 
 
 def str_eq(a, b):
